@@ -105,7 +105,7 @@ UNCOVERED.update({
     "C04": ["to_slice/ignored etc. are compared with their value-building form through a common specification, not by a two-run product"],
     "C05": ["error list contents compared by length under CBMC", "recovery inside folds: by composition only"],
     "C06": ["Rich::merge of two expected/found reasons (RichReason::flat_merge's list loop) exhausts CBMC's memory (> 24 GB in every case split tried): not under contract, and neither is Rich::merge with a user error on one side (tried in round 3: the same list loop is explored symbolically behind the boxed reason, > 15 min): which span a merged Rich error keeps is therefore not decided; its twin on the add_alt path, Rich::merge_expected_found, is under contract (bounded: one expectation per side)", "the real error types are proved with a bounded number of expectations per error (<= 2; <= 1 per side for merges), spans / found tokens / pattern kinds fully symbolic; Vec growth (realloc) is not exercised (lists are built with spare capacity)", "filter(): found token of a rejection is not asserted (the library reports none)"],
-    "C07": ["foldr_with per-item spans", "IterInput/MappedInput empty-match clause is a recorded finding", "Stream/IoInput slices n/a"],
+    "C07": ["IterInput/MappedInput: the empty-match clause with a token ahead is a recorded finding (two entries); at the end of input it holds and is asserted", "Stream/IoInput slices n/a"],
     "C08": ["nested_delimiters is a grammar built from combinators that are each under contract (recursive, delimited_by, or, repeated, and_is, none_of, map_with); the composition itself (real recursion through Rc/dyn plus two nested loops) is beyond the solver's time limit and is NOT checked: a change confined to how nested_delimiters assembles them is not detected", "skip strategies bounded to 2 rounds"],
     "C09": ["pratt_go loop: bounded (against real infix operators: 2 operands; against the stub operator table: 2 operator applications, operands nest one level deep; stubs emit nothing)", "tuple tables of arity > 2", "prefix/postfix tables beyond the single-operator steps"],
     "C10": ["IoInput (BufReader/Seek)", "Graphemes (unicode-segmentation)", "Stream 512-item batch boundary", "bytes feature"],
